@@ -345,6 +345,10 @@ psf_fread (void *ptr, sf_count_t bytes, sf_count_t items, SF_PRIVATE *psf)
 {	sf_count_t total = 0 ;
 	ssize_t	count ;
 
+	/* A zero sized element (e.g. a zero length chunk) would divide by zero below. */
+	if (bytes == 0 || items == 0)
+		return 0 ;
+
 	if (psf->virtual_io)
 		return psf->vio.read (ptr, bytes*items, psf->vio_user_data) / bytes ;
 
@@ -981,6 +985,10 @@ psf_fread (void *ptr, sf_count_t bytes, sf_count_t items, SF_PRIVATE *psf)
 {	sf_count_t total = 0 ;
 	ssize_t count ;
 	DWORD dwNumberOfBytesRead ;
+
+	/* A zero sized element (e.g. a zero length chunk) would divide by zero below. */
+	if (bytes == 0 || items == 0)
+		return 0 ;
 
 	if (psf->virtual_io)
 		return psf->vio.read (ptr, bytes*items, psf->vio_user_data) / bytes ;
